@@ -62,12 +62,13 @@ func NewPartitionRouter(ctx context.Context, client *clientv3.Client, logger *sl
 		routes: make(map[string]string),
 	}
 
-	if err := r.loadAll(ctx); err != nil {
+	rev, err := r.loadAll(ctx)
+	if err != nil {
 		cancel()
 		return nil, fmt.Errorf("load initial partition routes: %w", err)
 	}
 
-	go r.watch(watchCtx)
+	go r.watch(watchCtx, rev)
 	return r, nil
 }
 
@@ -114,10 +115,10 @@ func (r *PartitionRouter) Stop() {
 	r.cancel()
 }
 
-func (r *PartitionRouter) loadAll(ctx context.Context) error {
+func (r *PartitionRouter) loadAll(ctx context.Context) (int64, error) {
 	resp, err := r.client.Get(ctx, partitionLeasePrefix+"/", clientv3.WithPrefix())
 	if err != nil {
-		return err
+		return 0, err
 	}
 	fresh := make(map[string]string, len(resp.Kvs))
 	for _, kv := range resp.Kvs {
@@ -132,12 +133,14 @@ func (r *PartitionRouter) loadAll(ctx context.Context) error {
 	r.routes = fresh
 	r.mu.Unlock()
 	r.logger.Info("loaded partition routes from etcd", "count", len(fresh))
-	return nil
+	return resp.Header.Revision, nil
 }
 
-func (r *PartitionRouter) watch(ctx context.Context) {
+func (r *PartitionRouter) watch(ctx context.Context, rev int64) {
 	for {
-		watchChan := r.client.Watch(ctx, partitionLeasePrefix+"/", clientv3.WithPrefix(), clientv3.WithPrevKV())
+		// Resume right after the revision the routing table reflects, so a
+		// lease change landing between loadAll and Watch is not lost.
+		watchChan := r.client.Watch(ctx, partitionLeasePrefix+"/", clientv3.WithPrefix(), clientv3.WithPrevKV(), clientv3.WithRev(rev+1))
 		for resp := range watchChan {
 			if resp.Err() != nil {
 				r.logger.Warn("partition lease watch error", "error", resp.Err())
@@ -145,6 +148,9 @@ func (r *PartitionRouter) watch(ctx context.Context) {
 			}
 			r.mu.Lock()
 			for _, ev := range resp.Events {
+				if ev.Kv.ModRevision > rev {
+					rev = ev.Kv.ModRevision
+				}
 				etcdKey := string(ev.Kv.Key)
 				routeKey, ok := leaseKeyToRouteKey(etcdKey)
 				if !ok {
@@ -172,8 +178,10 @@ func (r *PartitionRouter) watch(ctx context.Context) {
 		// Reseed the routing table from a full read and re-establish the watch.
 		r.logger.Warn("partition lease watch stream closed, reconnecting")
 		time.Sleep(time.Second)
-		if err := r.loadAll(ctx); err != nil {
+		if loaded, err := r.loadAll(ctx); err != nil {
 			r.logger.Warn("partition lease watch reconnect: reload failed", "error", err)
+		} else {
+			rev = loaded
 		}
 	}
 }
